@@ -410,3 +410,19 @@ K("C15.celltext_fragment_dispatch", ["C15", "C03", "C04"], FRAG, "check_fragment
   "a text fragment never becomes or joins geometry: scale gives a Text with the same content anchored at q*s; absolute_position moves the cell; "
   "merge with a line, circle, arc or rect is None in both orders; it contacts no geometric fragment",
   kind="bounded", bound="content fixed to \"é-\" (drawing character inside the text); cells, scale and the geometric fragments symbolic", timeout=300)
+
+K("S2.is_collinear_exact", ["C09", "C06"], LINE, "check_is_collinear_exact", "util::is_collinear", 
+  "on the lattice: true <=> the exact (integer) cross product of the three points is zero (sound and complete)",
+  file="util.rs", kmod="k9", timeout=600, timeout_thorough=3600,
+  assumes=["lattice reduced to 8 cells (quick) / 128 cells (thorough): completeness holds for all magnitudes (equal real products round equally), "
+           "soundness needs products below 2^24"])
+B("S1.is_touching_lattice", ["C09", "C06", "C03"], LINE, "bounded_is_touching_lattice", "Line::is_touching / touching_line / contains_point (parry2d Segment::contains_point)",
+  "true <=> an end point of one segment lies on the closed segment of the other (exact arithmetic)",
+  "all 360,000 ordered pairs of non-degenerate segments between the 25 lattice points of one cell, at the origin and at cell (397,193); "
+  "parry's point projection (dot products, division, relative_eq) did not finish in Kani (> 25 min for 4 lines, design phase)")
+
+B("M2.merge_fixpoint", ["C09", "C10", "C01"], "merge.rs", "bounded_merge_recursive_fixpoint", "Merge::merge_recursive / second_pass_merge",
+  "for an arbitrary merge table: the result is a fix-point (no earlier item merges with a later one); unmergeable items are kept in order; "
+  "1 <= result length <= input length",
+  "every merge table over 3 abstract ids (4^9 = 262,144 tables) x 5 id sequences x lengths 3 and 4; Kani on the abstract item type did not finish in 800 s; "
+  "the unbounded length / termination clauses are M1, M2 (Verus)")
